@@ -79,6 +79,7 @@ func c14(c *Ctx) {
 	r.Floor("R3.ztyp-field-lists", 25)
 	r.Floor("R4.fork-tables", 4)
 	r.Floor("R5.path-prefix", 3)
+	r.Floor("R6.error-not-lost", 1)
 
 	debug := os.Getenv("VERIF_C14_DEBUG") != ""
 	tys := fastsszTypes(p)
@@ -307,6 +308,30 @@ func c14(c *Ctx) {
 
 	c14ztyp(c)
 	c14Nibbles(c)
+	// R6: no error of a decoding / encoding step is lost inside a codec (a shadowed err, a dropped
+	// check): the limits and offset checks of the helpers only count if their verdict is returned
+	{
+		var roots []*ssa.Function
+		pkgSet := map[string]bool{}
+		for _, fn := range p.ModuleFuncs() {
+			if fn.Signature.Recv() == nil || fn.Parent() != nil {
+				continue
+			}
+			switch fn.Name() {
+			case "UnmarshalSSZ", "MarshalSSZTo", "MarshalSSZ", "Deserialize", "Serialize":
+				roots = append(roots, fn)
+				if fn.Pkg != nil {
+					pkgSet[strings.TrimPrefix(strings.TrimPrefix(fn.Pkg.Pkg.Path(), core.ModPath), "/")] = true
+				}
+			}
+		}
+		var pkgs []string
+		for k := range pkgSet {
+			pkgs = append(pkgs, k)
+		}
+		sort.Strings(pkgs)
+		lostErrorRule(c, "R6.error-not-lost", "codec methods", roots, pkgs)
+	}
 }
 
 // baseConst: the constant a SizeSSZ accumulator starts from (phi initial / first store), -1 if none.
